@@ -1,15 +1,30 @@
-(* C03: no stuck clients.  ONLY statements closed by `exact`, each followed by Print Assumptions. *)
+(* C03: no stuck clients.  ONLY statements closed by `exact`, each followed by Print Assumptions.  See Properties_C02.v for Spec.v. *)
 From Coq Require Import List NArith ZArith Bool Strings.Byte Strings.String.
 Import ListNotations.
-Require Import Params Iauth IauthInv.
+Require Import Params Iauth IauthInv Spec.
 Local Open Scope list_scope.
 
-Theorem hold_accounting_invariant : forall c services rs t evs,
-  TInv (fold_left (fun s e => fst (step_ev c s e)) evs (init c services rs t)).
-Proof. exact run_inv_init. Qed.
-Print Assumptions hold_accounting_invariant.
+(* in every reachable state NO request in the table is ready: whatever the history (late, duplicate or unexpected replies, repeated
+   passwords, timeouts), a client that meets every condition for a verdict has received it in the step that completed them *)
+Theorem no_ready_client_is_left_waiting : forall c s, reach c s -> Forall (fun r => sready c (abs r) = false) (reqs s).
+Proof. exact no_ready_waits. Qed.
+Print Assumptions no_ready_client_is_left_waiting.
 
-(* a request that the gate leaves in the table is not `ready`: whenever every condition for a verdict holds, the gate has issued it *)
+Theorem accept_exactly_when_ready : forall c s id argv i, reach c s ->
+  (existsb (accept_for i) (snd (step c s id argv)) = true <->
+   exists r1 pre efs, sevent c (abs_st s) id argv = ToGate i r1 pre efs /\ sready c r1 = true).
+Proof. exact accept_iff_ready_step. Qed.
+Print Assumptions accept_exactly_when_ready.
+
+(* on the specification itself: the gate accepts iff ready, and a request it leaves behind is not ready *)
+Theorem spec_gate_accepts_iff_ready : forall c tb r, fst (sgate c tb r) = None <-> sready c r = true.
+Proof. exact sgate_accepts_iff_ready. Qed.
+Print Assumptions spec_gate_accepts_iff_ready.
+
+Theorem spec_gate_leaves_only_unready : forall c tb r r', fst (sgate c tb r) = Some r' -> sready c r' = false.
+Proof. exact sgate_live_not_ready. Qed.
+Print Assumptions spec_gate_leaves_only_unready.
+
 Theorem gate_never_leaves_a_ready_client : forall c tb r, Inv r ->
   match fst (gate c tb r) with Some r' => ready c r' = false | None => True end.
 Proof. exact gate_not_stuck. Qed.
